@@ -198,17 +198,52 @@ Theorem migrate_not_updated_same : forall cur outer,
   snd (migrate false cur outer) = snd outer /\ is_gen (fst (migrate false cur outer)) = is_gen (fst outer).
 Proof. intros cur [oi og]. split; reflexivity. Qed.
 
-(** ** energy across an interrupt *)
-(** the energy of the host rebuilt by [resume_receive] is the energy it is given; given what
-    [process_receive_result] handed out, it is the energy at the interrupt: nothing is charged
-    between the interrupt and [run_config], and nothing is charged twice *)
-Theorem energy_across_interrupt_thm : forall h su cur r h' w,
-  resume_in (snd (interrupt_out h)) (fst (interrupt_out h)) su cur r = Some (h', w) ->
-  rh_energy h' = rh_energy h
-  /\ rh_frame h' = migrate su cur (rh_frame h)
-  /\ response_word su (rh_params h) r = Some (w, rh_params h').
+(** ** the host across an interrupt *)
+(** every field of the host that survives an interrupt comes back unchanged: activation frames,
+    energy (when the embedder passes back what it was handed), return value; the logs handed out plus
+    the logs kept are the logs produced (nothing lost, nothing duplicated); the parameters grow by
+    exactly what the response word announces; the balance is the new balance on success and unchanged
+    on failure; the instance state is migrated *)
+Theorem interrupt_preserves_host_fields_thm : forall clear h su cur r h' w,
+  resume_in (snd (interrupt_out clear h)) (fst (fst (interrupt_out clear h))) su cur r = Some (h', w) ->
+  rh_activation_frames h' = rh_activation_frames h
+  /\ rh_energy h' = rh_energy h
+  /\ rh_return_value h' = rh_return_value h
+  /\ snd (fst (interrupt_out clear h)) ++ rh_logs h' = rh_logs h
+  /\ response_word su (rh_params h) r = Some (w, rh_params h')
+  /\ rh_self_balance h' = match r with RSuccess b _ => b | RFailure _ => rh_self_balance h end
+  /\ rh_frame h' = migrate su cur (rh_frame h).
 Proof.
-  intros h su cur r h' w. unfold resume_in, interrupt_out. cbn [fst snd sv_params sv_frame].
+  intros clear h su cur r h' w. unfold resume_in, interrupt_out.
+  cbn [fst snd sv_params sv_frame sv_activation_frames sv_logs sv_return_value sv_self_balance].
   destruct (response_word su (rh_params h) r) as [[w0 ps]|]; [|discriminate].
-  intros E; inversion E; subst; clear E. cbn. repeat split.
+  intros E; inversion E; subst; clear E. cbn.
+  repeat split. destruct clear; [apply app_nil_r | reflexivity].
 Qed.
+
+(** a host whose saved activation frames were reset to the maximum would NOT have this property
+    (the seeded change the first version of the check missed) *)
+Example reset_activation_frames_differs :
+  let h := {| rh_energy := 5; rh_activation_frames := 1019; rh_logs := []; rh_return_value := [];
+              rh_params := [[]]; rh_self_balance := 1; rh_frame := (i_fresh, empty_gen) |} in
+  rh_activation_frames h <> MAX_ACTIVATION_FRAMES
+  /\ enter_calls h 1020 = None.
+Proof. split; [discriminate | reflexivity]. Qed.
+
+(** the call-depth budget: [n] nested calls succeed iff [n] frames are left, and returning restores them *)
+Theorem enter_leave_calls : forall h n,
+  (enter_calls h n <> None <-> n <= rh_activation_frames h)
+  /\ (forall h1, enter_calls h n = Some h1 -> leave_calls h1 n = h).
+Proof.
+  intros h n. unfold enter_calls. destruct (N.leb_spec n (rh_activation_frames h)) as [Hle|Hgt]; split.
+  - split; [intros _; exact Hle | discriminate].
+  - intros h1 E. inversion E; subst; clear E. destruct h. unfold leave_calls. cbn in *. f_equal. lia.
+  - split; [intros H; contradiction | lia].
+  - discriminate.
+Qed.
+
+(** energy at the interrupt = energy at the resume ([resume_receive] charges nothing before [run_config]) *)
+Theorem energy_across_interrupt_thm : forall clear h su cur r h' w,
+  resume_in (snd (interrupt_out clear h)) (fst (fst (interrupt_out clear h))) su cur r = Some (h', w) ->
+  rh_energy h' = rh_energy h.
+Proof. intros clear h su cur r h' w E. apply (interrupt_preserves_host_fields_thm _ _ _ _ _ _ _ E). Qed.
